@@ -205,7 +205,9 @@ type Scheduler struct {
 	// StepTime, when set, is how much fake time passes after each action
 	// ("things take time"); 0 lets the tape model a stalled clock.
 	StepTime func() time.Duration
-	start    time.Time
+	// Verbose logs every enabled action at every step (debugging aid).
+	Verbose bool
+	start   time.Time
 }
 
 // Run executes the loop. It must be called inside a Bubble.
@@ -250,7 +252,12 @@ func (s *Scheduler) Run() {
 		}
 		i := s.R.Tape.Weighted(ws)
 		s.R.Steps++
-		s.R.Logf("s%d %s", s.R.Steps, acts[i].Key)
+		if s.Verbose {
+			for _, a := range acts {
+				s.R.Logf("     . %s", a.Key)
+			}
+		}
+		s.R.Logf("s%d [%d] %s", s.R.Steps, len(acts), acts[i].Key)
 		acts[i].Do()
 		if s.StepTime != nil {
 			if d := s.StepTime(); d > 0 {
